@@ -47,3 +47,11 @@ func VerifScMul(s, a, b *[32]byte) { scMul(s, a, b) }
 
 // VerifScReduce exposes scReduce: out = s mod l for a 64-byte s.
 func VerifScReduce(out *[32]byte, s *[64]byte) { scReduce(out, s) }
+
+// VerifSlide exposes slide, the variable-time sliding-window recoding used by
+// geScalarMultVartime: 256 digits, each zero or odd in [-15,15].
+func VerifSlide(a *[32]byte) [256]int8 {
+	var r [256]int8
+	slide(&r, a)
+	return r
+}
